@@ -133,6 +133,7 @@ pub fn build() -> Vec<TypeOps> {
 	t!(v, "derived", "zst-wire"; Only, Vec<Only>, VecDeque<Only>, [Only; 3], [Only; 0], Box<Only>, LinkedList<Only>, Option<Only>, (Only, u8, Only), BTreeMap<u8, Only>, Box<[Only; 2]>, Vec<[Only; 2]>);
 	t!(v, "zst-wire"; Marker, Vec<Marker>, VecDeque<Marker>, [Marker; 4], Box<[Marker; 2]>, (u8, Marker), Vec<Option<Marker>>);
 	t!(v, "derived", "zst-wire"; TOnlyFirst, Box<TOnlyFirst>, [TOnlyFirst; 2], Arc<TOnlyFirst>, TOnlyLast, Box<TOnlyLast>, [TOnlyLast; 3], Rc<TOnlyLast>, Vec<TOnlyLast>);
+	t!(v, "derived", "zst-wire"; TCompactZ, Box<TCompactZ>, [TCompactZ; 2], Rc<TCompactZ>, TEncAsZ, Box<TEncAsZ>, [TEncAsZ; 3], Arc<TEncAsZ>);
 	t!(v, "custom-fixed"; Vec<BeU32>, [BeU32; 3], Box<[BeU32; 2]>, VecDeque<BeU32>, (BeU32, u8), Vec<[BeU32; 2]>);
 
 	// --- element sizes that do not divide the 16 KiB preallocation window; big elements (few per chunk)
